@@ -128,6 +128,11 @@ func (f *TermFactory) declText() string {
 
 // Text renders a script that checks the conjunction of the selected goals (indices); nil = all.
 func (s *Script) Text(sel []int, negate bool) string {
+	return s.TextWith(sel, negate, nil)
+}
+
+// TextWith is Text with additional asserted formulas (used for the case-split stage of Discharge).
+func (s *Script) TextWith(sel []int, negate bool, with []*Term) string {
 	f := s.f
 	var sb strings.Builder
 	sb.WriteString("(set-logic ALL)\n")
@@ -154,6 +159,7 @@ func (s *Script) Text(sel []int, negate bool) string {
 	roots := append([]*Term{}, f.ranges...)
 	roots = append(roots, s.Extra...)
 	hints := extHints(f, goals)
+	hints = append(hints, with...)
 	roots = append(roots, hints...)
 	roots = append(roots, goals...)
 	p := &Printer{f: f, defined: map[int]string{}, out: &strings.Builder{}, refs: map[int]int{}}
@@ -339,6 +345,22 @@ func (r *FnResult) Discharge(opt SolveOptions) {
 			o := r.Obls[i]
 			name := base + "__" + sanitize(o.Kind) + fmt.Sprintf("_%d", i)
 			v, runs := Race(r.Script.Text([]int{i}, true), opt.Dir, name, opt.Timeout, opt.NeedTwo)
+			if v != "unsat" && v != "sat" {
+				// cut stage: G is valid if not-e and not-G is unsatisfiable for every e in a set E of
+				// formulas (so not-G implies all of E) and E together with not-G is unsatisfiable.
+				if ok, cruns, n := r.cutStage(i, opt, name); ok {
+					v, runs = "unsat", append(runs, cruns...)
+					o.Solver, o.Secs = winner(cruns)
+					var tot float64
+					for _, rr := range cruns {
+						tot += rr.Secs
+					}
+					o.Secs = tot
+					o.Detail = fmt.Sprintf("discharged by a cut on %d sequence equalities between arguments of the same specification function (%d solver queries, all unsat)", n, n+1)
+					o.Result = "discharged"
+					return
+				}
+			}
 			if v != "unsat" {
 				// retry ladder: longer timeout
 				v2, runs2 := Race(r.Script.Text([]int{i}, true), opt.Dir, name, 4*opt.Timeout, opt.NeedTwo)
@@ -363,6 +385,64 @@ func (r *FnResult) Discharge(opt SolveOptions) {
 		}(i)
 	}
 	wg.Wait()
+}
+
+// cutStage tries to discharge obligation i by cutting on the equalities suggested by extHints.
+func (r *FnResult) cutStage(i int, opt SolveOptions, name string) (bool, []SolverRun, int) {
+	f := r.Script.f
+	hs := extHints(f, []*Term{r.Script.Goals[i]})
+	seenH := map[int]bool{}
+	for _, h := range hs {
+		seenH[h.id] = true
+	}
+	for _, h := range extHintsMode(f, []*Term{r.Script.Goals[i]}, true) {
+		if !seenH[h.id] {
+			hs = append(hs, h)
+		}
+	}
+	if len(hs) == 0 {
+		return false, nil, 0
+	}
+	if len(hs) > 12 {
+		hs = hs[:12]
+	}
+	type res struct {
+		e    *Term
+		ok   bool
+		runs []SolverRun
+	}
+	out := make([]res, len(hs))
+	var wg sync.WaitGroup
+	for k, h := range hs {
+		e := h.args[0]
+		out[k].e = e
+		wg.Add(1)
+		go func(k int, e *Term) {
+			defer wg.Done()
+			v, runs := Race(r.Script.TextWith([]int{i}, true, []*Term{f.Not(e)}), opt.Dir, fmt.Sprintf("%s__cut%d", name, k), opt.Timeout, opt.NeedTwo)
+			out[k].ok, out[k].runs = v == "unsat", runs
+		}(k, e)
+	}
+	wg.Wait()
+	var es []*Term
+	var all []SolverRun
+	for _, o := range out {
+		if o.ok {
+			es = append(es, o.e)
+			s, t := winner(o.runs)
+			all = append(all, SolverRun{Solver: s, Answer: "unsat", Secs: t})
+		}
+	}
+	if len(es) == 0 {
+		return false, nil, 0
+	}
+	v, runs := Race(r.Script.TextWith([]int{i}, true, es), opt.Dir, name+"__cutfinal", opt.Timeout, opt.NeedTwo)
+	if v != "unsat" {
+		return false, nil, 0
+	}
+	s, t := winner(runs)
+	all = append(all, SolverRun{Solver: s, Answer: "unsat", Secs: t})
+	return true, all, len(es)
 }
 
 func winner(runs []SolverRun) (string, float64) {
@@ -392,6 +472,11 @@ func CheckSat(script, dir, name string, timeout time.Duration) (string, []Solver
 // syntactically, the tautology eq(a,b) or not eq(a,b) puts the term eq(a,b) on the table, which fires the
 // (skolemised) extensionality axiom. Pure hints: they do not change the meaning of the query.
 func extHints(f *TermFactory, goals []*Term) []*Term {
+	return extHintsMode(f, goals, false)
+}
+
+// extHintsMode with liberal set also pairs applications that both occur in the assumptions.
+func extHintsMode(f *TermFactory, goals []*Term, liberal bool) []*Term {
 	var out []*Term
 	done := map[[2]int]bool{}
 	addHint := func(a, b *Term) {
@@ -458,7 +543,7 @@ func extHints(f *TermFactory, goals []*Term) []*Term {
 		}
 	}
 	for _, g := range flat {
-		if g.op == "=>" && len(g.args) == 2 {
+		if g.op == "=>" && len(g.args) == 2 && !liberal {
 			// applications in the conclusion against applications in the assumptions (and among the conclusion)
 			ra, pa := collect(g.args[0]), collect(g.args[1])
 			var names []string
